@@ -50,6 +50,19 @@ fn gen_atom(s: &mut dyn Src) -> String {
     out
 }
 
+/// A functor / predicate name: the pool, or (1 in 3) a generated one - a letter followed by letters, digits and `_`,
+/// ending in a digit half of the time (edge1, level0, p2p, a_b3).
+fn gen_functor(s: &mut dyn Src) -> String {
+    if !chance(s, 1, 3) { return pick(s, &FUNCTORS).to_string(); }
+    let n = s.draw(6);
+    let mut out = String::new();
+    out.push(pick(s, &['a', 'e', 'k', 'm', 'p', 'q', 'z', 'N', 'T', 'é', 'λ']));
+    for _ in 0..n { out.push(match weighted(s, &[6, 2, 1]) { 0 => pick(s, &LETTERS), 1 => char::from(b'0' + s.draw(10) as u8), _ => '_' }); }
+    if chance(s, 1, 2) { out.push(char::from(b'0' + s.draw(10) as u8)); }
+    if RESERVED.contains(&out.as_str()) || crate::render::RESERVED.contains(&out.as_str()) { out.push('x'); }
+    out
+}
+
 fn gen_varname(s: &mut dyn Src) -> String {
     let n = 1 + s.draw(6);
     let mut out = String::from("$");
@@ -101,7 +114,7 @@ fn c_term(s: &mut dyn Src, depth: u32) -> Term {
         }
         _ => {
             let n = size(s, 5, 13) as usize;
-            Term::Cmp(pick(s, &FUNCTORS).to_string(), (0..n).map(|_| c_term(s, depth + 1)).collect())
+            Term::Cmp(gen_functor(s), (0..n).map(|_| c_term(s, depth + 1)).collect())
         }
     }
 }
@@ -119,7 +132,7 @@ fn c_func(s: &mut dyn Src) -> Term {
 
 fn c_leaf(s: &mut dyn Src) -> Goal {
     match weighted(s, &[6, 4, 3, 4, 1, 1, 1]) {
-        0 => { let n = size(s, 4, 13) as usize; Goal::Call(pick(s, &FUNCTORS).to_string(), (0..n).map(|_| c_term(s, 1)).collect()) }
+        0 => { let n = size(s, 4, 13) as usize; Goal::Call(gen_functor(s), (0..n).map(|_| c_term(s, 1)).collect()) }
         1 => if chance(s, 1, 3) { Goal::Unify(Term::var(pick(s, &CVARS)), c_func(s)) } else { Goal::Unify(c_term(s, 1), c_term(s, 1)) },
         2 => { let op = pick(s, &CmpOp::ALL); let r = if chance(s, 1, 4) { c_func(s) } else { c_term(s, 2) }; Goal::Compare(op, c_term(s, 2), r) }
         3 => match s.draw(7) {
@@ -150,12 +163,12 @@ fn c_goal(s: &mut dyn Src, depth: u32) -> Goal {
 /// What can stand inside not(...) / time(...) in source text: a single call.
 fn c_simple(s: &mut dyn Src) -> Goal {
     let n = s.draw(3) as usize;
-    Goal::Call(pick(s, &FUNCTORS).to_string(), (0..n).map(|_| c_term(s, 2)).collect())
+    Goal::Call(gen_functor(s), (0..n).map(|_| c_term(s, 2)).collect())
 }
 
 fn c_clause(s: &mut dyn Src) -> Clause {
     let n = size(s, 4, 13) as usize;
-    let name = if chance(s, 1, 12) { format!("{}_{}", pick(s, &FUNCTORS), "abcdefghij".repeat(1 + s.draw(4) as usize)) } else { pick(s, &FUNCTORS).to_string() };
+    let name = if chance(s, 1, 12) { format!("{}_{}", pick(s, &FUNCTORS), "abcdefghij".repeat(1 + s.draw(4) as usize)) } else { gen_functor(s) };
     let args: Vec<Term> = (0..n).map(|_| c_term(s, 1)).collect();
     let body = if chance(s, 2, 5) { None } else { Some(c_goal(s, 1)) };
     Clause { name, args, body }
